@@ -216,6 +216,50 @@ pub unsafe extern "C" fn open64(path: *const c_char, flags: c_int, mode: libc::m
     fd
 }
 
+/// A duplicated descriptor refers to the same open file (shared position):
+/// it inherits the tracking of its source, so calls through it are seen too.
+fn inherit_fd(src: c_int, new: c_int) {
+    if new < 0 {
+        return;
+    }
+    let e = errno();
+    if let Ok(mut g) = FDS.lock() {
+        let m = g.get_or_insert_with(HashMap::new);
+        match m.get(&src).cloned() {
+            Some(inf) => {
+                m.insert(new, inf);
+            }
+            None => {
+                m.remove(&new);
+            }
+        }
+    }
+    set_errno(e);
+}
+
+/// `fcntl` is variadic in C; on the supported targets its optional argument
+/// travels like an ordinary third integer argument.
+#[no_mangle]
+pub unsafe extern "C" fn fcntl(fd: c_int, cmd: c_int, arg: libc::c_long) -> c_int {
+    let r = libc::syscall(libc::SYS_fcntl, fd, cmd, arg) as c_int;
+    if cmd == libc::F_DUPFD || cmd == libc::F_DUPFD_CLOEXEC {
+        inherit_fd(fd, r);
+    }
+    r
+}
+
+#[no_mangle]
+pub unsafe extern "C" fn fcntl64(fd: c_int, cmd: c_int, arg: libc::c_long) -> c_int {
+    fcntl(fd, cmd, arg)
+}
+
+#[no_mangle]
+pub unsafe extern "C" fn dup(fd: c_int) -> c_int {
+    let r = libc::syscall(libc::SYS_dup, fd) as c_int;
+    inherit_fd(fd, r);
+    r
+}
+
 #[no_mangle]
 pub unsafe extern "C" fn close(fd: c_int) -> c_int {
     let info = {
